@@ -21,7 +21,8 @@ RULE = ('exhaustive: every rule body built from <= 3 assignments (a=, a+=, b=, a
         'skeleton, input token kinds); non-trivial = an attribute collects >= 2 values in that input')
 REQUIRED = {'grammars': 200, 'attributes_checked': 300, 'accepted_inputs': 500, 'inputs_with_falsy_first': 30,
             'list_attrs_seen': 50, 'single_attrs_seen': 50,
-            'grammars_with_several_objects_and_dropped_subobjects': 100}
+            'grammars_with_several_objects_and_dropped_subobjects': 100, 'reference_valued_inputs': 300,
+            'postponed_reference_answers': 300}
 
 VALS = ['INT', 'ID', 'STRING', 'BOOL', 'FLOAT']
 
@@ -257,6 +258,84 @@ def _run_rand(ctx, i):
     check_grammar(ctx, g, {'phase': 'rand', 'i': i}, r, 10, sample=(i < 3))
 
 
+REF_GRAMMAR = '''
+Model: 'begin' defs+=D uses+=U 'end';
+D: 'def' name=ID;
+U: 'use' r=[D] 'via' v=[D] 'and' r=[D] (',' r=[D])* ('or' o=[D] o=[D])? ';';
+'''
+
+
+def run_refs(ctx, i):
+    """the values of a repeatedly assigned attribute may be references: they arrive when the reference is resolved,
+    which a scope provider may postpone - the attribute still holds them once each, in input order"""
+    from textx import metamodel_from_str, TextXError
+    from textx.scoping import Postponed
+    from textx.scoping.providers import PlainName
+    r = ctx.rng('refs', i)
+    rep = {'phase': 'refs', 'i': i}
+    names = ['d%d' % k for k in range(r.randint(2, 5))]
+    text = 'begin ' + ' '.join('def ' + n for n in names) + '\n'
+    uses = []
+    pos = {}
+    for u in range(r.randint(1, 3)):
+        rs = [r.choice(names) for _ in range(r.randint(2, 5))]
+        v = r.choice(names)
+        o = [r.choice(names), r.choice(names)] if r.random() < 0.4 else []
+        text += 'use '
+        pos[(u, 'r', 0)] = len(text)
+        text += rs[0] + ' via '
+        pos[(u, 'v', 0)] = len(text)
+        text += v + ' and '
+        for k, n in enumerate(rs[1:], 1):
+            if k > 1:
+                text += ' , '
+            pos[(u, 'r', k)] = len(text)
+            text += n
+        if o:
+            text += ' or '
+            for k, n in enumerate(o):
+                pos[(u, 'o', k)] = len(text)
+                text += n + ' '
+        text += ' ;\n'
+        uses.append((rs, v, o))
+    text += 'end'
+    # schedule: number of Postponed answers per reference position (every round makes progress)
+    keys = sorted(pos.values())
+    sched = {p: r.choice([0, 0, 0, 1, 1, 2]) for p in keys}
+    if 0 not in sched.values():
+        sched[keys[0]] = 0
+    if 2 in sched.values() and 1 not in sched.values():
+        sched = {p: min(v, 1) for p, v in sched.items()}
+    left = dict(sched)
+    inner = PlainName()
+
+    def provider(obj, attr, ref):
+        if left.get(ref.position, 0) > 0:
+            left[ref.position] -= 1
+            ctx.count('postponed_reference_answers')
+            return Postponed()
+        return inner(obj, attr, ref)
+    mm = metamodel_from_str(REF_GRAMMAR)
+    mm.register_scope_providers({'*.*': provider})
+    wit = {'grammar': REF_GRAMMAR, 'input': text, 'postponed_answers_per_reference_position': {str(k): v for k, v in sched.items() if v}}
+    ctx.case(('refs', tuple(len(u[0]) for u in uses), tuple(sorted(sched.values()))), any(sched.values()),
+             wit if i < 2 else None)
+    ctx.count('reference_valued_inputs')
+    try:
+        m = mm.model_from_str(text)
+    except TextXError as e:
+        ctx.violation(None, 'reference-valued assignments: accepted input failed: %s' % str(e)[:100], wit, rep)
+        return
+    for (rs, v, o), uo in zip(uses, m.uses):
+        got = [x.name for x in uo.r]
+        if got != rs:
+            ctx.violation(None, 'attribute r assigned %r (in input order) holds %r' % (rs, got), wit, rep)
+            return
+        if uo.v.name != v or [x.name for x in (uo.o or [])] != o:
+            ctx.violation(None, 'attributes v / o hold %r / %r, written %r / %r' % (uo.v.name, [x.name for x in uo.o], v, o), wit, rep)
+            return
+
+
 def space(tier):
     out = []
     for n in (1, 2, 3):
@@ -279,6 +358,8 @@ def run(ctx):
     ctx.deadline = ctx.t0 + total
     for i in ctx.indices(3000 if ctx.tier == 'quick' else 60000, 'random'):
         run_rand(ctx, i)
+    for i in ctx.indices(1500 if ctx.tier == 'quick' else 30000, 'references'):
+        run_refs(ctx, i)
 
 
 def one(ctx, i):
@@ -288,5 +369,7 @@ def one(ctx, i):
 def replay(ctx, rep):
     if rep['phase'] == 'exh':
         run_exh(ctx, space(rep['tier']), rep['i'])
+    elif rep['phase'] == 'refs':
+        run_refs(ctx, rep['i'])
     else:
         run_rand(ctx, rep['i'])
